@@ -128,8 +128,10 @@ int gc_gen(cs_t *cs, gcase_t *c, const runcfg_t *cfg, int prop) {
             c->alpha = 1;
             if (r->fl & F_VAL) { static const long vv[] = {'a', 'A', 0xE9, 0}; if (r->fl & F_VAL255 || r->out_kind == OUT_PTR) c->val = vv[cs_range(cs, 0, 3)]; }
             c->cseed = (uint32_t)cs_noise(cs, 0, 0xffffff);
+            c->src_first = (uint8_t)cs_noise(cs, 0, 1);
             return 1;
         }
+        c->src_first = (uint8_t)cs_noise(cs, 0, 1);
         c->alpha = (int)cs_range(cs, 0, 1);
         if (prop == 4) c->alpha = 0;
         c->cseed = (uint32_t)cs_noise(cs, 0, 0xffffff);
@@ -278,6 +280,7 @@ int gc_gen(cs_t *cs, gcase_t *c, const runcfg_t *cfg, int prop) {
         if (r->fam == FAM_QUERY && (r->fl & F_SRC)) c->val = cs_range(cs, 0, 1);
     }
     c->out_null = (r->out_kind != OUT_NONE || r->ret_kind == RK_PTR_ERRP) ? cs_range(cs, 0, 39) == 0 : 0;
+    c->src_first = (uint8_t)cs_range(cs, 0, 1);
     if (r->fl & F_NONULL) c->dest_null = c->src_null = c->out_null = 0;
     c->alpha = (int)cs_range(cs, 0, 3);
     if (prop == 4) c->alpha = c->alpha & 2; /* alphabets 0 ('a','b') and 2 (blanks): disjoint from the prefill */
@@ -347,6 +350,7 @@ void gc_run(const gcase_t *c, gexec_t *x) {
     x->faulted = 0; x->canary_bad = NULL; x->h_str = x->h_mem = 0; x->h_code = -1; x->errp_val = -12345;
     x->dest = x->src = x->out = x->errp = NULL;
     ar_reset();
+    if ((r->fl & F_SRC) && c->src_first) x->src = ar_alloc(g, c->splace, c->strue, 0); /* lower slot = lower address */
     /* dest */
     x->dest = ar_alloc(g, c->dplace, c->dtrue, (size_t)c->dskew);
     for (i = 0; i < delems; i++) {
@@ -369,7 +373,7 @@ void gc_run(const gcase_t *c, gexec_t *x) {
     /* src */
     if (r->fl & F_SRC) {
         size_t selems = c->strue / (size_t)r->w;
-        x->src = ar_alloc(g, c->splace, c->strue, 0);
+        if (!c->src_first) x->src = ar_alloc(g, c->splace, c->strue, 0);
         for (i = 0; i < selems; i++) {
             uint32_t v;
             if (c->scontent == SC_STR) v = i < c->slen_true ? alpha_elem(c->alpha, r->w, &s) : (i == c->slen_true ? 0 : (uint32_t)(0x70 + i % 13));
@@ -449,5 +453,6 @@ void gc_describe(const void *kase, char *buf, size_t n) {
     if ((r->fl & F_VAL) && k < (int)n) k += snprintf(buf + k, n - (size_t)k, "; val=%ld", c->val);
     if (c->out_null && k < (int)n) k += snprintf(buf + k, n - (size_t)k, "; out=NULL");
     if (c->ex_on && k < (int)n) k += snprintf(buf + k, n - (size_t)k, "; explicit d=[%u %u %u %u] s=[%u %u %u %u]", c->ex_d[0], c->ex_d[1], c->ex_d[2], c->ex_d[3], c->ex_s[0], c->ex_s[1], c->ex_s[2], c->ex_s[3]);
+    if (c->src_first && k < (int)n) k += snprintf(buf + k, n - (size_t)k, "; src-below-dest");
     if (k < (int)n) snprintf(buf + k, n - (size_t)k, "; alpha=%d cseed=%u guard=%s)", c->alpha, c->cseed, c->guard == G_RO ? "RO" : "NA");
 }
